@@ -148,6 +148,10 @@ var uploadImpl = map[string]core.Adapter{
 				}
 			}
 		}
+		if (len(names)+len(ctl))%2 == 0 || len(names) == 0 {
+			// other checksum fields are not the list of files the operations act on
+			fmt.Fprintf(&doc, "Checksums-Sha256:\n e3b0c44298fc1c149afbf4c8996fb92427ae41e4649b934ca495991b7852b855 8 ../outside/sentinel\n e3b0c44298fc1c149afbf4c8996fb92427ae41e4649b934ca495991b7852b855 1 %s\nChecksums-Sha1:\n da39a3ee5e6b4b0d3255bfef95601890afd80709 8 %s/outside/sentinel\n", ctl, root)
+		}
 		if (len(names)+len(op))%3 == 1 {
 			// a Filename field inside the document is not where the control file is
 			fmt.Fprintf(&doc, "Filename: %s/outside/%s\n", root, ctl)
